@@ -254,7 +254,7 @@ class Selector(css_parser.util.Base2):
                         t = 'pseudo-class'
                     tokens[-1] = (t, self._tokenvalue(tokens[-1])+val, lin, col)
 
-                elif typ == 'FUNCTION' and val == 'not(' and tokens and \
+                elif typ == 'FUNCTION' and self._normalize(val) == 'not(' and tokens and \
                         ':' == self._tokenvalue(tokens[-1]):
                     tokens[-1] = ('negation', ':' + val, lin, tokens[-1][3])
                 elif typ == 'FUNCTION' and tokens\
